@@ -67,6 +67,14 @@ func hostileProfile(r *rand.Rand) (gen.Profile, gen.DataCfg) {
 	return p, d
 }
 
+// oddNamesProfile: object fields called `node` (edge.node style) and arguments of a custom scalar type.
+func oddNamesProfile(r *rand.Rand) (gen.Profile, gen.DataCfg) {
+	p, d := stdProfile(r)
+	p.NodeNamedField, p.ScalarArgs = 0.5, true
+	p.PArgs = 0.45
+	return p, d
+}
+
 var c01Configs = []rig.Config{
 	{}, {Hint: true}, {Merger: "sanitize"}, {Merger: "sanitize", Hint: true},
 	{Planner: "cached", TTLms: 3600000}, {Planner: "cached", TTLms: 3600000, Hint: true, Merger: "sanitize"},
@@ -93,6 +101,9 @@ func (p c01) Gen(c *run.Ctx, idx int) (json.RawMessage, error) {
 	cu, err := universe(c.Seed, "std", uidx, stdProfile)
 	if uidx%6 == 5 {
 		cu, err = universe(c.Seed, "hostile", uidx, hostileProfile)
+	}
+	if uidx%6 == 4 {
+		cu, err = universe(c.Seed, "odd", uidx, oddNamesProfile)
 	}
 	if err != nil {
 		return nil, err
